@@ -483,6 +483,76 @@ func oraclePrefix(raw string) (norm string, ok bool) {
 	return strings.Join(st, "/"), true
 }
 
+// oracleLexClean: the path a name denotes, lexically: "." segments and repeated slashes dropped, "s/.." cancels,
+// leading ".." segments of a relative path stay. No claim for the current directory itself and for ".." at the root.
+func oracleLexClean(p string) (string, bool) {
+	if p == "" || !isASCII(p) {
+		return "", false
+	}
+	var st []string
+	abs := p[0] == '/'
+	for _, seg := range strings.Split(p, "/") {
+		switch seg {
+		case "", ".":
+		case "..":
+			if len(st) > 0 && st[len(st)-1] != ".." {
+				st = st[:len(st)-1]
+			} else if abs {
+				return "", false
+			} else {
+				st = append(st, "..")
+			}
+		default:
+			st = append(st, seg)
+		}
+	}
+	if abs {
+		if len(st) == 0 {
+			return "", false
+		}
+		return "/" + strings.Join(st, "/"), true
+	}
+	if len(st) == 0 {
+		return "", false
+	}
+	return strings.Join(st, "/"), true
+}
+
+// denotedPath: an artifact name the oracle makes claims about: clean relative or absolute, or a clean relative
+// path behind leading "../" segments (recorded outside the working directory)
+func denotedPath(p string) bool {
+	q := p
+	for strings.HasPrefix(q, "../") {
+		q = q[3:]
+	}
+	return okPath(p) || (q != p && isASCII(q) && cleanPath(q))
+}
+
+// oracleDstPrefix: the directory of the referenced step a destination prefix denotes: "" (none), "." (its top
+// directory: '.', './', 'out/..'), "/" or a clean directory; no claim for prefixes climbing out
+func oracleDstPrefix(raw string) (string, bool) {
+	if raw == "" {
+		return "", true
+	}
+	if !isASCII(raw) {
+		return "", false
+	}
+	c, ok := oracleLexClean(raw)
+	if !ok {
+		// the current directory (relative, everything cancelled) is fine for a destination
+		if raw[0] != '/' {
+			if p, pok := oraclePrefix(raw + "/x"); pok && p == "x" {
+				return ".", true
+			}
+		}
+		return oraclePrefix(raw)
+	}
+	if strings.HasPrefix(c, "..") {
+		return "", false
+	}
+	return c, true
+}
+
 // oracleUnder: a lies under the directory p (normalised); base = the path of a relative to p
 func oracleUnder(p, a string) (base string, under bool) {
 	switch {
@@ -540,10 +610,22 @@ func oracleMatch(r oRule, g []gitem, src arts, queue map[string]bool, meta map[s
 		case r.dp == "":
 		case strings.HasPrefix(base, "/"):
 			return nil, false
-		case r.dp == "/":
-			dname = "/" + base
 		default:
-			dname = r.dp + "/" + base
+			// the artifact named <destination prefix>/<base>, as a path ("." = the top directory of the step)
+			joined := r.dp + "/" + base
+			switch r.dp {
+			case ".":
+				joined = base
+			case "/":
+				joined = "/" + base
+			}
+			if strings.HasPrefix(base, "../") {
+				var jok bool
+				if joined, jok = oracleLexClean(joined); !jok {
+					return nil, false
+				}
+			}
+			dname = joined
 		}
 		dh, ok := dstArts[dname]
 		if !ok {
@@ -583,7 +665,7 @@ func oracleVerify(in vInput) (verdict string, st oStats, queues [2][]string) {
 	for _, l := range in.Meta {
 		for _, a := range []arts{l.Materials, l.Products} {
 			for k := range a {
-				if !okPath(k) {
+				if !denotedPath(k) {
 					return "", st, queues
 				}
 			}
@@ -621,7 +703,7 @@ func oracleVerify(in vInput) (verdict string, st oStats, queues [2][]string) {
 				}
 				var pok1, pok2 bool
 				o.sp, pok1 = oraclePrefix(o.sp)
-				o.dp, pok2 = oraclePrefix(o.dp)
+				o.dp, pok2 = oracleDstPrefix(o.dp)
 				if !pok1 || !pok2 {
 					return "", st, queues
 				}
@@ -1434,7 +1516,7 @@ func oracleM(in mInput) string {
 		}
 	}
 	sp, ok1 := oraclePrefix(rd["srcPrefix"])
-	dp, ok2 := oraclePrefix(rd["dstPrefix"])
+	dp, ok2 := oracleDstPrefix(rd["dstPrefix"])
 	if !okPath(rd["pattern"]) || !ok1 || !ok2 {
 		return ""
 	}
@@ -1951,6 +2033,27 @@ func runStream(drv string, n int, out string) {
 			}
 		}
 	}
+	// 4h. MATCH prefixes that denote the top directory or carry redundant parts, sources recorded outside the working
+	//     directory; verdict against the oracle on the denoted paths and against the model
+	dpIns, dpKl := allDotPrefixCases()
+	for i, in := range dpIns {
+		orc := oracleVerifyNormalised(in)
+		k := dpKl[i]
+		if orc == "" {
+			k += "/no-oracle"
+		} else {
+			k += "/" + orc
+		}
+		impl := runVerify(in)
+		model := noModel
+		if d != nil {
+			model, _ = d.verify(in)
+		}
+		rp.Distribution[k]++
+		ii := in
+		rp.add(k, anyCase{Kind: "V", V: &ii}, impl, model, orc)
+		rp.Nontrivial++
+	}
 	// 4g. REQUIRE fails exactly when its file is not queued, also when the queue is empty or fully consumed
 	for i, form := range requireEmptyForms {
 		for k := 0; k < 3; k++ {
@@ -2004,6 +2107,10 @@ func main() {
 			var in vInput
 			var base string
 			switch {
+			case i >= 88 && i < 104:
+				a, b := allDotPrefixCases()
+				j := (i - 88) * 29 % len(a)
+				in, base = a[j], b[j]
 			case i >= 76 && i < 88:
 				in, base = genF21(i - 76)
 			case i >= 48 && i < 60:
@@ -2038,7 +2145,7 @@ func main() {
 				in, base = genVCase(r.Fork())
 			}
 			orc, st, _ := oracleVerify(in)
-			if orc == "" && (strings.HasPrefix(base, "unclean-material-names") || strings.HasPrefix(base, "F21-")) {
+			if orc == "" && (strings.HasPrefix(base, "unclean-material-names") || strings.HasPrefix(base, "F21-") || strings.HasPrefix(base, "match-prefix-normalises")) {
 				if orc = oracleVerifyNormalised(in); orc != "" {
 					st.end = orc
 				}
